@@ -22,6 +22,7 @@ type verifWriter struct {
 	shortWr   bool // Write accepts a symbolic number of bytes and may fail
 	failNext  bool
 	hijacks     int
+	refuse      bool // every Write fails (the client is gone)
 	strictCodes bool // WriteHeader panics for codes outside 100..999, like net/http's
 }
 
@@ -43,6 +44,9 @@ type verifErr struct{}
 func (verifErr) Error() string { return "verif: write failed" }
 
 func (w *verifWriter) Write(b []byte) (int, error) {
+	if w.refuse {
+		return 0, verifErr{}
+	}
 	if w.whCalls == 0 {
 		w.preCommit++
 	}
